@@ -4,6 +4,7 @@ import (
 	"fmt"
 	"go/token"
 	"go/types"
+	"os"
 	"strings"
 
 	"golang.org/x/tools/go/ssa"
@@ -173,6 +174,174 @@ func c19(w *core.World, r *core.Report) {
 
 	r.Rule("LOCK-RELEASE", 1, "every Lock/RLock taken in a function of that scope is released on every path to the function's exits (deferred unlock, or an unlock call on the path): an error return that keeps a mutex blocks the other streaming goroutines forever.")
 	r.Rule("CONSUMER-DRAINS", 2, "the goroutine in Server.GetData that forwards responses to the gRPC stream stops reading only when the stream's context is done, the channel was closed, or a send failed with one of the frozen dead-stream texts (strings.Contains on the error): any other early return leaves Datastore.Get blocked on its send while it holds Server.md.")
+	// ---- NO-SELF-DEADLOCK
+	r.Rule("NO-SELF-DEADLOCK", 0, "no function of that scope calls, while it holds a sync.Mutex / RWMutex of its receiver, a repository function that (itself or through synchronous callees) takes the same mutex class on the same receiver: Go's mutexes are not re-entrant, the call blocks for ever with the lock held, and so does every later handler that needs it (WatchDeviations registering a stream, StopDeviationsWatch when the client cancels, the deviation manager's next tick).")
+	{
+		lw := w.Locks(nil)
+		nHeldCalls := 0
+		for _, f := range w.RepoFns {
+			if !inScope(f) || f.Blocks == nil {
+				continue
+			}
+			fl := lw.Funcs[f]
+			if fl == nil {
+				fl = core.AnalyzeLocks(f)
+			}
+			for _, c := range core.OwnCalls(f) {
+				if _, isGo := c.(*ssa.Go); isGo {
+					continue
+				}
+				g := c.Common().StaticCallee()
+				if g == nil || g.Blocks == nil || lw.AcqTrans[g] == nil {
+					continue
+				}
+				for _, h := range fl.HeldBefore(c) {
+					if !lw.AcqTrans[g][h.Class] || h.Base == nil {
+						continue
+					}
+					recv := core.CallRecv(c)
+					if recv == nil || !(recv == h.Base || core.SameObject(recv, h.Base)) {
+						continue
+					}
+					nHeldCalls++
+					r.Viol("NO-SELF-DEADLOCK", core.Site(f, "call %s with %s held", core.CalleeKey(c), h.Class), w.InstrPos(c), "the callee takes "+h.Class+" of the same object again while the caller holds it: the goroutine blocks on itself and the lock is never released")
+				}
+			}
+		}
+		r.Extra["calls_reacquiring_a_held_lock"] = nHeldCalls
+	}
+
+	// ---- SIBLINGS-CANCELLED
+	r.Rule("SIBLINGS-CANCELLED", 1, "when one subscription of a Subscribe stream fails, the others are stopped: in every goroutine Datastore.Subscribe starts, each path from the err != nil outcome of doSubscribeOnce to the goroutine's exit calls the cancel function of the very context whose Done() channel the goroutines' select waits on (the WithCancel made in Subscribe; a cancel of a per-round context that shadows it stops nobody). Otherwise wg.Wait() returns only when every other subscription fails on its own next tick, which is client-chosen.")
+	if sub := w.Func("pkg/datastore", "Datastore", "Subscribe"); sub != nil {
+		// the context.With* calls whose result #idx v is (through local variables and variables captured by closures)
+		ctxMaker := func(v ssa.Value, idx int) map[*ssa.Call]bool {
+			out := map[*ssa.Call]bool{}
+			seen := map[ssa.Value]bool{}
+			var rec func(v ssa.Value, d int)
+			stores := func(al *ssa.Alloc, d int) {
+				for _, ref := range *al.Referrers() {
+					if st, ok := ref.(*ssa.Store); ok && st.Addr == ssa.Value(al) {
+						rec(st.Val, d+1)
+					}
+				}
+			}
+			rec = func(v ssa.Value, d int) {
+				if v == nil || seen[v] || d > 8 {
+					return
+				}
+				seen[v] = true
+				switch x := v.(type) {
+				case *ssa.Extract:
+					if mk, ok := x.Tuple.(*ssa.Call); ok && x.Index == idx && core.CalleeIs(mk, "context.WithCancel", "context.WithTimeout", "context.WithDeadline") {
+						out[mk] = true
+					}
+				case *ssa.Phi:
+					for _, e := range x.Edges {
+						rec(e, d+1)
+					}
+				case *ssa.ChangeType:
+					rec(x.X, d+1)
+				case *ssa.MakeInterface:
+					rec(x.X, d+1)
+				case *ssa.UnOp:
+					if x.Op != token.MUL {
+						return
+					}
+					switch y := x.X.(type) {
+					case *ssa.Alloc:
+						stores(y, d)
+					case *ssa.FreeVar:
+						for _, o := range core.OriginsThroughCaptures(y) {
+							if al, ok := o.(*ssa.Alloc); ok {
+								stores(al, d)
+							}
+						}
+					}
+				}
+			}
+			rec(v, 0)
+			return out
+		}
+		var visit func(g *ssa.Function)
+		visit = func(g *ssa.Function) {
+			for _, a := range g.AnonFuncs {
+				visit(a)
+			}
+			if g == sub {
+				return
+			}
+			// the contexts this goroutine waits on
+			waits := map[*ssa.Call]bool{}
+			for _, b := range g.Blocks {
+				for _, in := range b.Instrs {
+					sel, ok := in.(*ssa.Select)
+					if !ok {
+						continue
+					}
+					for _, st := range sel.States {
+						for _, oc := range core.OriginCalls(st.Chan) {
+							if core.CalleeIs(oc, "context.Context.Done") {
+								for mk := range ctxMaker(core.CallRecv(oc), 0) {
+									waits[mk] = true
+								}
+							}
+						}
+					}
+				}
+			}
+			if os.Getenv("DSCHECK_DEBUG_C19") != "" {
+				fmt.Println("C19 debug closure", g.Name(), "waits", len(waits), "calls", len(core.OwnCallsTo(g, "datastore.Datastore.doSubscribeOnce")))
+			}
+			if len(waits) == 0 {
+				return
+			}
+			isCancel := func(in ssa.Instruction) bool {
+				c, ok := in.(*ssa.Call)
+				if !ok || c.Call.IsInvoke() || c.Call.StaticCallee() != nil {
+					return false
+				}
+				for mk := range ctxMaker(c.Call.Value, 1) {
+					if waits[mk] {
+						return true
+					}
+				}
+				return false
+			}
+			for _, c := range core.OwnCallsTo(g, "datastore.Datastore.doSubscribeOnce") {
+				cc, ok := c.(*ssa.Call)
+				if !ok {
+					continue
+				}
+				for _, iff := range core.Ifs(g) {
+					x, nilOnTrue, isNil := core.NilTest(iff.Cond)
+					if !isNil {
+						continue
+					}
+					hit := false
+					for _, oc := range core.OriginCalls(x) {
+						if oc == cc {
+							hit = true
+						}
+					}
+					if !hit {
+						continue
+					}
+					fail := iff.Block().Succs[0]
+					if nilOnTrue {
+						fail = iff.Block().Succs[1]
+					}
+					leaves, _ := core.PathQuery{Avoid: isCancel}.Reaches(fail, 0, func(in ssa.Instruction) bool {
+						_, isRet := in.(*ssa.Return)
+						return isRet && in.Parent() == g
+					})
+					r.Check(!leaves, "SIBLINGS-CANCELLED", core.Site(sub, "failed subscription cancels the shared context"), w.InstrPos(iff), "a path from the failure of doSubscribeOnce leaves the goroutine without cancelling the context the sibling goroutines wait on")
+				}
+			}
+		}
+		visit(sub)
+	}
+
 	nLocks := 0
 	closers := map[ssa.Value][]ssa.Instruction{} // made channel -> close sites
 	for _, f := range w.RepoFns {
